@@ -58,6 +58,23 @@ Theorem tuple_refines_list :
 Proof. exact SeqTheorems.tuple_refines_list. Qed.
 Print Assumptions tuple_refines_list.
 
+(* growth / shrink crossings: the invariant kept by every in-range history bounds nitems by the
+   capacity, and an outcome the specification allows is never a crash (out-of-block access, read of
+   an uninitialised cell) nor fuel exhaustion — so along such histories every touched index is
+   inside the backing store and every loop of the models terminates within its fuel *)
+Theorem array_invariant_capacity :
+  forall (E : Type) (a : array E),
+  a_inv E a -> nitems E a <= nslots E a /\ length (cells E a) = nslots E a.
+Proof. exact SeqTheorems.array_invariant_capacity. Qed.
+Print Assumptions array_invariant_capacity.
+
+Theorem in_range_outcome_never_crash :
+  forall (E : Type) (eqb ltb : E -> E -> bool) (zero : E) (c : kind) (l : list E) (o : sop E)
+         (l' : list E) (r : out E),
+  spec_ok E eqb ltb zero c l o l' r -> r <> OCrash E /\ r <> OFuel E.
+Proof. exact SeqProofs.spec_ok_no_crash. Qed.
+Print Assumptions in_range_outcome_never_crash.
+
 (* F3 is real: with the same pointer stored twice, iteration runs out of every fuel *)
 Theorem tuple_repeated_pointer_refuted :
   forall (E : Type) (same : E -> E -> bool) (p : E),
